@@ -323,6 +323,11 @@ def r2(ctx):
         tw.extend(zip([U(x) for x in e.node.targets[0].elts], [U(x) for x in e.node.value.elts]))
     relink_head = ('self._downq', cur) in w
     relink_prev = (prev + '.downq', cur) in w
+    # the successor written into the link before the walk variable advances to it:  link = n.downq; n = n.downq
+    adv_i = [i_ for i_, x_ in enumerate(w) if x_ == (cur, cur + '.downq')]
+    if adv_i:
+      relink_head = relink_head or any(x_ == ('self._downq', cur + '.downq') for x_ in w[:adv_i[0]])
+      relink_prev = relink_prev or any(x_ == (prev + '.downq', cur + '.downq') for x_ in w[:adv_i[0]])
     prev_none = (prev + 'isNone', True) in fs
     if ('%s.index<0' % cur, True) in fs:
       seen.add('discarded')
